@@ -397,7 +397,9 @@ _EXTRA = {
             (C.C_idx_find, "C05 the index tuples, positions and rotations returned by the search stay parallel (a replacement is placed at the site whose atoms it removes)"),
             (C.C_wrap_modulus, "C05 inserted atoms are wrapped with period exactly 1 in fractional coordinates (inside the cell, by a lattice translation)"),
             (C.C_roll_gate, "C05 the roll about the matched axis is applied to every match with more than two atoms")],
-    "C06": [(C.C_idx_replace, "C06.2 index tuples, positions and rotations of the matches stay parallel, so the terms of an inserted fragment are attached to the atoms of the same match")],
+    "C06": [(C.C_idx_replace, "C06.2 index tuples, positions and rotations of the matches stay parallel, so the terms of an inserted fragment are attached to the atoms of the same match"),
+            (A2.A11_pop_deletes, "C06 the final deletion of the replaced atoms re-indexes the surviving terms with correctly normalised indices"),
+            (A2.A10_descending_contract, "C06 terms of removed atoms are dropped and the others re-indexed under the callers' descending order")],
     "C08": [(C.C_fractional_wrap, "C08 triclinic wrap in the row convention (a wrong basis shifts inserted atoms by non-lattice vectors, so the reverse search does not find the site)"),
             (C.C_axis_windows, "C08 the reverse search finds the replaced site again on triclinic cells: plane normals, widths, norms and inward signs are paired per axis"),
             (C.C_quaternion_layout, "C08 reversibility needs every pose to be found again: roll sense and roll branch test"),
